@@ -50,7 +50,7 @@ def plan(tier):
                 "at least two releases happened before a zero check and at least one location had hardware; distinct = "
                 "distinct (configuration, jobs, history, pace, drain).",
         "exhaustive": True,
-        "assumptions": ["a deployment's locations share one mount table", "jobs write within their reservation",
+        "assumptions": ["repeated notifications are issued sequentially (any status, FIREABLE included) and concurrently (two in-flight COMPLETED/FAILED calls)", "a deployment's locations share one mount table", "jobs write within their reservation",
                         "out-of-lifecycle histories are recorded, not judged"],
     }
 
@@ -136,8 +136,18 @@ class Observer:
                          f"(expected {exp!r}); {len(f['discrepancies'])} discrepancies"
                          + (f"; a scheduler call raised: {f['exceptions'][0]}" if f["exceptions"] else ""),
                          {"case": self.case, "observed": {k: v for k, v in f.items() if k != "mechanism"}})
-        elif run.exceptions:
-            sh.count("runs_with_exception_but_clean_release")
+        elif any(e[0] == "notify" for e in run.exceptions):
+            # the release path itself failed: notify_status raised on a notification of the lifecycle
+            # (e.g. a second release of the same reservation driving a size negative), although what it
+            # left behind happens to be clean
+            e = next(e for e in run.exceptions if e[0] == "notify")
+            sh.count("runs_with_notify_exception_but_clean_account")
+            tiny = [x for x in run.exceptions if x[0] == "notify" and x[3] == "WorkflowExecutionException" and NEG.search(x[4])
+                    and abs(float(NEG.search(x[4]).group(1))) < 1e-9]
+            mech = "C11/float-rounding-negative-storage" if len(tiny) == len(run.exceptions) else None
+            sh.violation(mech, f"notify_status({run.names[e[1]]}, {e[2]}) raised {e[3]}: {e[4][-160:]} while releasing (history follows the job lifecycle)",
+                         {"case": self.case, "observed": {"exceptions": list(run.exceptions[:4]), "ledger": run.ledger.snapshot(),
+                                                          "trace": [list(map(str, t)) for t in run.trace[-30:]]}})
         elif self.max_released >= 3 and any(run.ledger.retained.values()):
             sh.sample(dict(H.summarize(run), retained_usage_MiB={k.split("-", 1)[-1]: {m.rsplit("/", 1)[-1] or "/": v for m, v in d.items()}
                                                                  for k, d in run.ledger.retained.items() if d}))
